@@ -53,6 +53,12 @@ def jobs_C01(rng, tier):
     reps = scale_n(tier, 2, 12)
     # (a) every unary wrapper over several kinds of inner view: chain vs decomposition, bitwise at f64
     outers = [mk(nm, ECHO, gen.gen_params(rng, nm, 5)) for nm in gen.UNARY for _ in range(reps)]
+    # the smallest windows of every wrapper: that is where the special-case arms live (emptied deque, first value, …)
+    for nm in gen.UNARY:
+        if "n" in gen.CATALOGUE[nm]["params"]:
+            for n in (1, 2, 3):
+                if n >= gen.CATALOGUE[nm]["minN"]:
+                    outers.append(mk(nm, ECHO, gen.gen_params(rng, nm, 5, n=n)))
     outers += [("tanh", ECHO)] * reps
     for _ in range(reps * 2):
         outers.append(("pfe", ECHO, gen.gen_ma(rng), rng.randint(3, 5)))
@@ -524,9 +530,13 @@ def jobs_C12(rng, tier):
     def tolp(e):
         return dict(tol=1e-9) if gen.has_transc(e) else {}
 
-    for _ in range(R):
+    for it in range(R):
         n = rng.randint(2, 8)
         a, b = F(rng.randint(1, 40), 8), F(rng.randint(-40, 40), 8)
+        if it % 3 == 1:
+            # very small / very large units: absolute thresholds hidden in a view show up only there
+            a = F(2) ** rng.choice([-60, -40, -30, 30, 40, 60])
+            b = b * a
         fam, xs = gen.gen_stream(rng, 3 * n + 8, n, families=fams)
         fam, pos = gen.gen_stream(rng, 3 * n + 8, n, families=fams, positive=True)
         nondeg = [x + F(t % 3, 16) for t, x in enumerate(xs)]
